@@ -24,14 +24,37 @@ func (r *yieldRewriter) ignoreKeyVal(k, v ast.Expr) (bool, bool) {
 
 func (r *yieldRewriter) rewriteRanges(block *ast.BlockStmt) {
 	astutil.Apply(block, nil, func(c *astutil.Cursor) bool {
-		switch n := c.Node().(type) {
+		var (
+			n       *ast.RangeStmt
+			labeled *ast.LabeledStmt
+		)
+		switch x := c.Node().(type) {
 		case *ast.RangeStmt:
+			if _, ok := c.Parent().(*ast.LabeledStmt); ok {
+				// L: for range ...
+				// rewritten when leaving the labeled stmt, the iterator must be declared before the label
+				return true
+			}
+			n = x
+		case *ast.LabeledStmt:
+			labeled = x
+			n, _ = x.Stmt.(*ast.RangeStmt)
+		}
+		if n != nil {
+			insertBefore := func(s ast.Stmt) {
+				r.assert(c.Index() >= 0, n, "range with multiple labels not supported")
+				c.InsertBefore(s)
+			}
 			do := func(ctor string, arg ast.Expr) {
 				factory := r.SeqSelect(ctor)
 				iter := X.Call(factory, arg)
 				init, forStmt := r.rewriteRangeToForIter(n, iter)
-				c.InsertBefore(init)
-				c.Replace(forStmt)
+				insertBefore(init)
+				if labeled != nil {
+					labeled.Stmt = forStmt
+				} else {
+					c.Replace(forStmt)
+				}
 			}
 
 			ty := r.pkg.TypeOf(n.X)
@@ -55,7 +78,7 @@ func (r *yieldRewriter) rewriteRanges(block *ast.BlockStmt) {
 					// an array value (e.g. the result of a call) can't be sliced,
 					// bind it to a variable first
 					arr := X.Ident(r.gensym(cstArrayVar))
-					c.InsertBefore(X.Define(arr, n.X))
+					insertBefore(X.Define(arr, n.X))
 					x = arr
 				}
 				typeInfered := &ast.SliceExpr{X: x}
